@@ -83,6 +83,11 @@ class XARecord:
                 continue
 
             if unused != b'\x00\x00\x00\x00\x00':
+                if offset != 0:
+                    # At the padded position the bytes 'XA' can also be part
+                    # of other system use data (e.g. a Rock Ridge name); a real
+                    # XA record has zeros in the unused field.
+                    continue
                 raise pycdlibexception.PyCdlibInvalidISO('Unused fields should be 0')
 
             self._pad_size = offset
